@@ -174,7 +174,9 @@ class SpecGen:
         if shape == "list":
             names = [str(i) for i in range(n)]
         elif shape == "names":
-            names = ["g_0", "weight", "x1_"][:n]
+            # (not a trailing underscore: the MLE searches' plots label parameters `z^{\rm <component>}` and matplotlib's
+            #  mathtext rejects `x1_}` -- the fit dies in the plotter and returns no result: outside C05's statement)
+            names = ["g_0", "weight", "x1_y"][:n]
         items = []
         for i in range(n - 1 if shape == "alias" else n):
             if shape is None and depth < 1 and rng.random() < 0.25:
